@@ -11,6 +11,12 @@ under the boundary rule (mj_ray's own answer changes under a 2e-5 shift).
 Oracle 2 (the ray table itself): a point on pixel (px, py)'s ray must project, through MuJoCo's own camprojection sensor, onto
 (px + 0.5, py + 0.5); orthographic cameras must not send every pixel along the same ray.
 get_depth / get_segmentation return the same buffers (scaled / clamped).
+Render histories (one RenderContext rendered repeatedly): every sequence of length <= 3 over the scene changes {N: nothing, B: the
+joints of every world move to the next pose, C: the mocap rig carrying the two world cameras moves/rotates}; after each change
+kinematics / camlight / refit_bvh / render run on the SAME context and every pixel of every camera and world of that frame is held
+against oracle 1 (and the accessors). The length-3 histories are enumerated; the shorter ones are their prefixes (each frame is
+checked). x camera model (quick: two per history, cycling), two worlds with different poses; rendered groups / arrangement / culling /
+rays / rgb cycle.
 """
 
 import itertools
@@ -24,20 +30,26 @@ ID = "C35"
 LEVEL = "exploration"
 RULE = (
   "enumerate arrangements x camera model x resolution x nworld x rendered groups; every pixel of every camera in every world is "
-  "compared with the brute-force ray cast of its own ray; non-trivial = at least one pixel of some camera hits a geom; "
+  "compared with the brute-force ray cast of its own ray; histories: all sequences of <= 3 scene changes over {nothing, move bodies, "
+  "move cameras} re-rendered on one context, every frame compared; non-trivial = at least one pixel of some camera hits a geom; "
   "distinct = hash of the spec"
 )
 BOUNDS = {
-  "quick": "3 arrangements x 4 camera models x 3 resolutions x nworld {1,2} x 3 group sets = 216 scenarios, 3 cameras each",
-  "thorough": "9 arrangements x 4 camera models x 4 resolutions (+16x12) x nworld {1,2} x 3 group sets x both culling flags",
+  "quick": "3 arrangements x 4 camera models x 3 resolutions x nworld {1,2} x 3 group sets = 216 single-frame scenarios, 3 cameras each; "
+  "+ 27 histories (3 changes over {N,B,C}; all shorter ones are prefixes) x 2 of the 4 camera models (pairs cycling) at 8x8, nworld 2 = 54 scenarios of 4 frames",
+  "thorough": "9 arrangements x 4 camera models x 4 resolutions (+16x12) x nworld {1,2} x 3 group sets x both culling flags; "
+  "+ 27 histories x 4 camera models x 3 group sets x nworld {1,2} x resolutions {3x2, 8x8}",
 }
 ASSUMPTIONS = [
-  "oracle 1 is mjw.rays without a render context (C34 checks that function against mj_ray); depth class f32, ids exact",
+  "oracle 1 is mjw.rays without a render context (C34 checks that function against mj_ray); depth class f32, ids exact; a depth-only "
+  "disagreement with mjw.rays (same geom) is referred to mj_ray itself, same tolerance (grazing rays: the two float32 casts can sit on "
+  "opposite sides of the float64 distance)",
   "cameras are kept outside every geom, so back-face culling on/off must give the same image",
   "oracle 2 uses MuJoCo's camprojection sensor, which ignores the principal point: cameras with a principal point are only checked by oracle 1",
   "intrinsic cameras get a sensor with the aspect ratio of the rendered image (a mismatch is cropped by MJWarp and stretched by MuJoCo's projection; not part of the property)",
   "no OpenGL in the sandbox: MuJoCo's own renderer is not available as a reference; rgb/shading is out of scope of the property",
   "no transparent geoms in the scene (rays() skips alpha=0 geoms, the renderer draws them); flex is out of scope (C40)",
+  "histories change the state only (qpos, mocap pose), followed by kinematics, com_pos, camlight, refit_bvh; the model, the context options and the resolution stay fixed within a history",
 ]
 BUDGET = {"quick": 600, "thorough": 3000}
 
@@ -45,6 +57,12 @@ SLOT_TYPES = ("sphere", "capsule", "ellipsoid", "cylinder", "box", "mesh", "mesh
 CAM_KINDS = ("fovy", "intrinsic", "principal", "ortho")
 RESOLUTIONS = ((1, 1), (3, 2), (8, 8), (16, 12))
 GROUPSETS = ((0, 1, 2, 3, 4, 5), (0, 1, 2), (1, 3, 5))
+HIST_LETTERS = "NBC"  # scene change before a re-render: Nothing, Bodies (joint poses), Cameras (mocap rig of cA and cB)
+# (hinge of b1, slide of b2) taken by the k-th "B" of a history; one row per world (world 0 starts at 0, world 1 at the pose in execute)
+BODY_POSES = (((0.8, 0.1), (-1.9, -0.04), (2.7, 0.07)), ((-0.6, -0.03), (2.2, 0.09), (-2.5, 0.0)))
+# (translation, rotation axis, angle) of the camera rig taken by the k-th "C" (world w takes entry (k + w) % 3): the cameras stay > 2.5
+# away from the scene centre and above the floor, i.e. outside every geom
+RIG_POSES = (((0.15, -0.1, 0.2), (0, 0, 1), 0.35), ((-0.2, 0.1, -0.1), (0, 0, 1), -0.5), ((0.05, 0.2, 0.1), (1, 0, 0), 0.08))
 
 
 def cam_attrs(kind, res, i, aspect):
@@ -90,8 +108,10 @@ def build_xml(scn):
     f'<mujoco><compiler angle="radian"/>{c34.ASSET}<visual><map znear="0.01"/></visual><statistic extent="4" center="0 0 0.5"/><worldbody>'
     '<geom name="floor" type="plane" size="1.6 1.3 0.1" pos="0 0 -0.05" group="0"/>'
     + "".join(static)
+    + '<body name="rig" mocap="true">'  # at the origin: the "world" cameras can be moved between frames of a history
     + f'<camera name="cA" pos="0.2 -3.4 1.5" xyaxes="1 0.05 0 0 0.35 1" {cam_attrs(kind, res[0], 0, aspect[0])}/>'
     + f'<camera name="cB" pos="2.4 2.2 2.6" xyaxes="-0.7 0.75 0 -0.45 -0.4 0.8" {cam_attrs(kind, res[1], 1, aspect[1])}/>'
+    + "</body>"
     + '<body name="b1" pos="0 0 0.1"><joint name="j1" type="hinge" axis="0 0 1"/>'
     + "".join(moving)
     + f'<camera name="cC" pos="0 0 0.55" xyaxes="0 -1 0 0.1 0 1" {cam_attrs(kind, res[2], 2, aspect[2])}/>'
@@ -123,10 +143,37 @@ def scenarios(tier, seed):
                      cull=cull, precomputed=(idx // 3) % 2, variant=variant, rgb=(idx // 5) % 2)
               )  # fmt: skip
             idx += 1
+  # render histories on one context: every sequence of 3 scene changes (shorter sequences are prefixes; every frame is checked)
+  hists = ["".join(h) for h in itertools.product(HIST_LETTERS, repeat=3)]
+  hress = ((8, 8),) if tier == "quick" else ((3, 2), (8, 8))
+  hworlds = (2,) if tier == "quick" else (1, 2)
+  hgroups = (None,) if tier == "quick" else tuple(range(len(GROUPSETS)))
+  idx = 0
+  for hi, hist in enumerate(hists):
+    # quick: each history with two of the four camera models (the pair cycles through all pairs); thorough: all four
+    kinds = [CAM_KINDS[(hi + j * (1 + (hi // 4) % 3)) % 4] for j in range(2)] if tier == "quick" else CAM_KINDS
+    for kind in kinds:
+      for res in hress:
+        for nworld in hworlds:
+          for gs in hgroups:
+            out.append(
+              dict(arr=(0, 3, 5)[(idx // 2) % 3], kind=kind, res=list(res), resmode=("model", "arg")[(idx // 2) % 2], nworld=nworld,
+                   groups=idx % len(GROUPSETS) if gs is None else gs, cull=idx % 2, precomputed=(idx // 3) % 2, variant=variant,
+                   rgb=(idx // 5) % 2, hist=hist)
+            )  # fmt: skip
+            idx += 1
   return out
 
 
+def _axis_angle_quat(axis, angle):
+  a = np.asarray(axis, dtype=np.float64)
+  a = a / np.linalg.norm(a)
+  return np.concatenate([[np.cos(0.5 * angle)], np.sin(0.5 * angle) * a])
+
+
 def execute(scn):
+  import copy
+
   import mujoco
   import warp as wp
   import mujoco_warp as mjw
@@ -134,6 +181,8 @@ def execute(scn):
 
   scn = dict(scn)
   scn["arr"] = scn["arr"] % 8
+  key = util.sha(scn)
+  hist = scn.get("hist", "")
   xml = build_xml(scn)
   mjm, err = util.try_load(xml)
   if mjm is None:
@@ -143,8 +192,11 @@ def execute(scn):
   except NotImplementedError as e:
     return dict(ok=True, nontrivial=False, outcome="unsupported", info=str(e)[:200])
   c = util.Cmp()
+  ca = util.Cmp()  # accessor checks of all frames (reported after the pixel classes, once per vkey)
   nworld = scn["nworld"]
   v = scn["variant"]
+  probe_mid = int(mjm.body_mocapid[mujoco.mj_name2id(mjm, mujoco.mjtObj.mjOBJ_BODY, "probe")])
+  rig_mid = int(mjm.body_mocapid[mujoco.mj_name2id(mjm, mujoco.mjtObj.mjOBJ_BODY, "rig")])
   d = mjw.make_data(mjm, nworld=nworld)
   mjds = []
   for w in range(nworld):
@@ -152,12 +204,7 @@ def execute(scn):
     if w == 1:
       mjd.qpos[0] = (0.9, -0.7, 1.3, -1.1)[v]
       mjd.qpos[1] = (0.12, -0.05, 0.08, 0.1)[v]
-    mujoco.mj_forward(mjm, mjd)
     mjds.append(mjd)
-    util.copy_state(mjd, d, world=w)
-  mjw.kinematics(m, d)
-  mjw.com_pos(m, d)
-  mjw.camlight(m, d)
   groups = list(GROUPSETS[scn["groups"]])
   kw = dict(nworld=nworld, render_rgb=bool(scn["rgb"]), render_depth=True, render_seg=True, enabled_geom_groups=groups,
             enable_backface_culling=bool(scn["cull"]), use_precomputed_rays=bool(scn["precomputed"]))  # fmt: skip
@@ -165,126 +212,178 @@ def execute(scn):
   if scn["resmode"] == "arg":
     kw["cam_res"] = [tuple(r) for r in rs]
   rc = mjw.create_render_context(mjm, **kw)
-  mjw.refit_bvh(m, d, rc)
-  mjw.render(m, d, rc)
-  depth = rc.depth_data.numpy().astype(np.float64)
-  seg = rc.seg_data.numpy()
-  table = rc.ray.numpy().astype(np.float64)
   ncam = mjm.ncam
   npxs = [r[0] * r[1] for r in rs]
   offs = [0] + list(np.cumsum(npxs))
   nray = int(offs[-1])
   cam_of = np.concatenate([np.full(n, ci) for ci, n in enumerate(npxs)])
-  c.equal("cam_res", rc.cam_res.numpy(), np.array(rs), vkey="context:cam_res")
-  if not c.true("buffers", depth.shape == (nworld, nray) and table.shape[0] == nray, f"depth {depth.shape} rays {table.shape}", vkey="context:buffer_shape"):
-    return c.result(nontrivial=False, key=util.sha(scn))
-  cam_xpos = d.cam_xpos.numpy().astype(np.float64)
-  cam_xmat = d.cam_xmat.numpy().astype(np.float64)
   mask = tuple(1 if g in groups else 0 for g in range(6))
   gg = vec6(*[float(x) for x in mask])
   ortho = scn["kind"] == "ortho"
   kindkey = scn["kind"]
-
-  # ---- oracle 2: the ray table against MuJoCo's own projection
-  if ortho:
-    if npxs[0] > 1:
-      same = all(np.array_equal(table[offs[ci]], table[offs[ci] + k]) for ci in range(ncam) for k in range(npxs[ci]))
-      c.true("ray_table:orthographic", not same, "every pixel of an orthographic camera is cast along the same ray from the same origin (constant image)", vkey="ray_table:orthographic:all_pixels_same_ray")
-  elif scn["kind"] != "principal":
-    mjd = mjds[0]
-    import copy
-
-    mjp = copy.deepcopy(mjm)  # camprojection works in the resolution stored in the model: give it the rendered one
-    mjp.cam_resolution[:] = np.array(rs)
-    worst = 0.0
-    for ci in range(ncam):
-      W = rs[ci][0]
-      for k in range(npxs[ci]):
-        px, py = k % W, k // W
-        dirw = mjd.cam_xmat[ci].reshape(3, 3) @ table[offs[ci] + k]
-        pd = mujoco.MjData(mjp)
-        pd.qpos[:] = mjd.qpos
-        pd.mocap_pos[0] = mjd.cam_xpos[ci] + 1.7 * dirw
-        mujoco.mj_forward(mjp, pd)
-        got = np.array(pd.sensordata[2 * ci : 2 * ci + 2])
-        worst = max(worst, float(np.max(np.abs(got - np.array([px + 0.5, py + 0.5])))))
-    c.true("ray_table:projection", worst < 2e-3 * max(rs[0]), f"a point on a pixel's ray projects {worst:.4g} px away from the pixel centre (MuJoCo camprojection)", vkey=f"ray_table:projection:{kindkey}")
-
-  # ---- oracle 1: every pixel against the brute-force cast of its own ray
-  P = np.zeros((nworld, nray, 3))
-  V = np.zeros((nworld, nray, 3))
-  for w in range(nworld):
-    for ci in range(ncam):
-      sl = slice(offs[ci], offs[ci + 1])
-      P[w, sl] = cam_xpos[w, ci]
-      V[w, sl] = table[sl] @ cam_xmat[w, ci].T
-  pnt = wp.array(P.astype(np.float32), dtype=wp.vec3)
-  vec = wp.array(V.astype(np.float32), dtype=wp.vec3)
-  exw = wp.array(np.full(nray, -1, dtype=np.int32), dtype=int)
-  rd = wp.zeros((nworld, nray), dtype=float)
-  rg = wp.zeros((nworld, nray), dtype=int)
-  rn = wp.zeros((nworld, nray), dtype=wp.vec3)
-  mjw.rays(m, d, pnt, vec, gg, True, exw, rd, rg, rn, None)
-  rd, rg, rn = rd.numpy().astype(np.float64), rg.numpy(), rn.numpy().astype(np.float64)
-  hits = miss = nb = 0
+  hits = miss = nb = nref = vacated = 0
   types_seen = set()
   viol = {}
-  Pf, Vf = P.astype(np.float32).astype(np.float64), V.astype(np.float32).astype(np.float64)
-  for w in range(nworld):
-    for r in range(nray):
-      g0, d0 = int(rg[w, r]), float(rd[w, r])
-      cosz = -table[r][2]
-      want_depth = d0 * cosz if g0 >= 0 else 0.0
-      want_seg = (g0, int(mujoco.mjtObj.mjOBJ_GEOM)) if g0 >= 0 else (-1, -1)
-      if g0 >= 0:
-        hits += 1
-        types_seen.add(int(mjm.geom_type[g0]))
-      else:
-        miss += 1
-      got_seg = (int(seg[w, r][0]), int(seg[w, r][1]))
-      ok = got_seg == want_seg and abs(depth[w, r] - want_depth) <= 2e-5 * (1 + abs(want_depth))
-      if ok:
-        continue
-      ref = c34._mj_cast(mjm, mjds[w], Pf[w, r], Vf[w, r], mask, 1, -1)
-      if c34._boundary(mjm, mjds[w], Pf[w, r], Vf[w, r], mask, 1, -1, ref):
-        nb += 1
-        continue
-      gt = "none" if g0 < 0 else str(int(mjm.geom_type[g0]))
-      wt = "none" if got_seg[0] < 0 else str(int(mjm.geom_type[got_seg[0]])) if got_seg[1] == 5 and got_seg[0] < mjm.ngeom else "bad"
-      kind = "seg" if got_seg != want_seg else "depth"
-      qual = ""
-      if g0 >= 0 and int(mjm.geom_type[g0]) == 1:
-        nl = mjds[w].geom_xmat[g0].reshape(3, 3).T @ rn[w, r]
-        if np.max(np.abs(nl)) > 1 - 1e-6:
-          qual = ":ray_hits_hfield_base_box"
-      if g0 >= 0 and int(mjm.geom_type[g0]) in (1, 7) and float(np.dot(rn[w, r], Vf[w, r])) > 0:
-        qual = ":ray_hits_back_face"
-      vk = f"render_vs_rays:{kind}:ray_geomtype={gt}:render_geomtype={wt}{qual}"
-      viol.setdefault(vk, [0, None])
-      viol[vk][0] += 1
-      if viol[vk][1] is None:
-        ci = int(cam_of[r])
-        k = r - offs[ci]
-        viol[vk][1] = (
-          f"world {w} camera {ci} pixel ({k % rs[ci][0]},{k // rs[ci][0]}): render depth={depth[w, r]:.6g} seg={got_seg}; ray cast dist={d0:.6g} "
-          f"-> depth={want_depth:.6g} seg={want_seg}; mj_ray=({ref[0]:.6g}, {ref[1]})"
-        )
+  prev = None  # (rendered seg, rendered depth, reference geom) of the previous frame of the history
+  nB = nC = 0
+
+  # frame 0 is the first render of the context; every further frame applies one scene change and renders on the same context
+  for fi, change in enumerate([""] + list(hist)):
+    if change == "B":
+      for w in range(nworld):
+        hinge, slide = BODY_POSES[w][nB % 3]
+        mjds[w].qpos[0] = hinge + 0.15 * v
+        mjds[w].qpos[1] = slide
+      nB += 1
+    elif change == "C":
+      for w in range(nworld):
+        pos, axis, ang = RIG_POSES[(nC + w) % 3]
+        mjds[w].mocap_pos[rig_mid] = pos
+        mjds[w].mocap_quat[rig_mid] = _axis_angle_quat(axis, ang + (0.05 * v if axis[2] else 0.0))
+      nC += 1
+    for w in range(nworld):
+      mujoco.mj_forward(mjm, mjds[w])
+      util.copy_state(mjds[w], d, world=w)
+    mjw.kinematics(m, d)
+    mjw.com_pos(m, d)
+    mjw.camlight(m, d)
+    mjw.refit_bvh(m, d, rc)
+    mjw.render(m, d, rc)
+    depth = rc.depth_data.numpy().astype(np.float64)
+    seg = rc.seg_data.numpy()
+    table = rc.ray.numpy().astype(np.float64)
+    ftag = "" if not hist else f"frame {fi} of history '{hist}' (after {hist[:fi] or 'the first render'}): "
+
+    if fi == 0:
+      c.equal("cam_res", rc.cam_res.numpy(), np.array(rs), vkey="context:cam_res")
+      if not c.true("buffers", depth.shape == (nworld, nray) and table.shape[0] == nray, f"depth {depth.shape} rays {table.shape}", vkey="context:buffer_shape"):
+        return c.result(nontrivial=False, key=key)
+
+      # ---- oracle 2: the ray table against MuJoCo's own projection (the table belongs to the context: checked at its first frame)
+      if ortho:
+        if npxs[0] > 1:
+          same = all(np.array_equal(table[offs[ci]], table[offs[ci] + k]) for ci in range(ncam) for k in range(npxs[ci]))
+          c.true("ray_table:orthographic", not same, "every pixel of an orthographic camera is cast along the same ray from the same origin (constant image)", vkey="ray_table:orthographic:all_pixels_same_ray")
+      elif scn["kind"] != "principal" and not hist:
+        mjd = mjds[0]
+        mjp = copy.deepcopy(mjm)  # camprojection works in the resolution stored in the model: give it the rendered one
+        mjp.cam_resolution[:] = np.array(rs)
+        worst = 0.0
+        for ci in range(ncam):
+          W = rs[ci][0]
+          for k in range(npxs[ci]):
+            px, py = k % W, k // W
+            dirw = mjd.cam_xmat[ci].reshape(3, 3) @ table[offs[ci] + k]
+            pd = mujoco.MjData(mjp)
+            pd.qpos[:] = mjd.qpos
+            pd.mocap_pos[probe_mid] = mjd.cam_xpos[ci] + 1.7 * dirw
+            mujoco.mj_forward(mjp, pd)
+            got = np.array(pd.sensordata[2 * ci : 2 * ci + 2])
+            worst = max(worst, float(np.max(np.abs(got - np.array([px + 0.5, py + 0.5])))))
+        c.true("ray_table:projection", worst < 2e-3 * max(rs[0]), f"a point on a pixel's ray projects {worst:.4g} px away from the pixel centre (MuJoCo camprojection)", vkey=f"ray_table:projection:{kindkey}")
+
+    # ---- oracle 1: every pixel against the brute-force cast of its own ray
+    cam_xpos = d.cam_xpos.numpy().astype(np.float64)
+    cam_xmat = d.cam_xmat.numpy().astype(np.float64)
+    P = np.zeros((nworld, nray, 3))
+    V = np.zeros((nworld, nray, 3))
+    for w in range(nworld):
+      for ci in range(ncam):
+        sl = slice(offs[ci], offs[ci + 1])
+        P[w, sl] = cam_xpos[w, ci]
+        V[w, sl] = table[sl] @ cam_xmat[w, ci].T
+    pnt = wp.array(P.astype(np.float32), dtype=wp.vec3)
+    vec = wp.array(V.astype(np.float32), dtype=wp.vec3)
+    exw = wp.array(np.full(nray, -1, dtype=np.int32), dtype=int)
+    rd = wp.zeros((nworld, nray), dtype=float)
+    rg = wp.zeros((nworld, nray), dtype=int)
+    rn = wp.zeros((nworld, nray), dtype=wp.vec3)
+    mjw.rays(m, d, pnt, vec, gg, True, exw, rd, rg, rn, None)
+    rd, rg, rn = rd.numpy().astype(np.float64), rg.numpy(), rn.numpy().astype(np.float64)
+    Pf, Vf = P.astype(np.float32).astype(np.float64), V.astype(np.float32).astype(np.float64)
+    for w in range(nworld):
+      for r in range(nray):
+        g0, d0 = int(rg[w, r]), float(rd[w, r])
+        cosz = -table[r][2]
+        want_depth = d0 * cosz if g0 >= 0 else 0.0
+        want_seg = (g0, int(mujoco.mjtObj.mjOBJ_GEOM)) if g0 >= 0 else (-1, -1)
+        if g0 >= 0:
+          hits += 1
+          types_seen.add(int(mjm.geom_type[g0]))
+        else:
+          miss += 1
+          if prev is not None and prev[2][w, r] >= 0:
+            vacated += 1  # the pixel showed a geom in the previous frame and is background now
+        got_seg = (int(seg[w, r][0]), int(seg[w, r][1]))
+        ok = got_seg == want_seg and abs(depth[w, r] - want_depth) <= 2e-5 * (1 + abs(want_depth))
+        if ok:
+          continue
+        ref = c34._mj_cast(mjm, mjds[w], Pf[w, r], Vf[w, r], mask, 1, -1)
+        if c34._boundary(mjm, mjds[w], Pf[w, r], Vf[w, r], mask, 1, -1, ref):
+          nb += 1
+          continue
+        if got_seg == want_seg and ref[1] == g0 and abs(depth[w, r] - ref[0] * cosz) <= 2e-5 * (1 + abs(ref[0] * cosz)):
+          # depth-only disagreement between two float32 casts (render and mjw.rays) of a grazing ray, each on its own side of the
+          # float64 answer: MuJoCo's mj_ray is the higher authority (C34 holds mjw.rays against it) and decides with the same tolerance
+          nref += 1
+          continue
+        gt = "none" if g0 < 0 else str(int(mjm.geom_type[g0]))
+        wt = "none" if got_seg[0] < 0 else str(int(mjm.geom_type[got_seg[0]])) if got_seg[1] == 5 and got_seg[0] < mjm.ngeom else "bad"
+        kind = "seg" if got_seg != want_seg else "depth"
+        note = ""
+        if prev is not None and prev[2][w, r] != g0:
+          # classification only: the nearest hit of this pixel changed since the previous frame, yet the image shows the old value
+          pseg = (int(prev[0][w, r][0]), int(prev[0][w, r][1]))
+          if kind == "seg" and got_seg == pseg:
+            kind, note = "seg_stale", f"; the previous frame rendered seg={pseg} at this pixel (stale value kept)"
+          elif kind == "depth" and depth[w, r] == prev[1][w, r]:
+            kind, note = "depth_stale", f"; the previous frame rendered depth={prev[1][w, r]:.6g} at this pixel (stale value kept)"
+        qual = ""
+        if g0 >= 0 and int(mjm.geom_type[g0]) == 1:
+          nl = mjds[w].geom_xmat[g0].reshape(3, 3).T @ rn[w, r]
+          if np.max(np.abs(nl)) > 1 - 1e-6:
+            qual = ":ray_hits_hfield_base_box"
+        if g0 >= 0 and int(mjm.geom_type[g0]) in (1, 7) and float(np.dot(rn[w, r], Vf[w, r])) > 0:
+          qual = ":ray_hits_back_face"
+        vk = f"render_vs_rays:{kind}:ray_geomtype={gt}:render_geomtype={wt}{qual}"
+        viol.setdefault(vk, [0, None])
+        viol[vk][0] += 1
+        if viol[vk][1] is None:
+          ci = int(cam_of[r])
+          k = r - offs[ci]
+          viol[vk][1] = (
+            f"{ftag}world {w} camera {ci} pixel ({k % rs[ci][0]},{k // rs[ci][0]}): render depth={depth[w, r]:.6g} seg={got_seg}; ray cast dist={d0:.6g} "
+            f"-> depth={want_depth:.6g} seg={want_seg}; mj_ray=({ref[0]:.6g}, {ref[1]}){note}"
+          )
+    c.nchecked += nworld * nray
+    prev = (seg.copy(), depth.copy(), rg.copy())
+
+    # ---- accessors
+    for ci in range(ncam):
+      W, H = rs[ci]
+      npx = npxs[ci]
+      out = wp.zeros((nworld, H, W), dtype=float)
+      scale = 3.0
+      mjw.get_depth(rc, ci, scale, out)
+      want = np.clip(rc.depth_data.numpy()[:, offs[ci] : offs[ci + 1]] / np.float32(scale), 0.0, 1.0).reshape(nworld, H, W)
+      ca.close(f"{ftag}get_depth:cam{ci}", out.numpy(), want, 1e-6, vkey="get_depth")
+      so = wp.zeros((nworld, H, W), dtype=wp.vec2i)
+      mjw.get_segmentation(rc, ci, so)
+      ca.equal(f"{ftag}get_segmentation:cam{ci}", so.numpy().reshape(nworld, npx, 2), seg[:, offs[ci] : offs[ci + 1]].reshape(nworld, npx, 2), vkey="get_segmentation")
+
   for vk in sorted(viol):
     c.fail(vk, f"[{viol[vk][0]} pixels] {viol[vk][1]}")
-  c.nchecked += nworld * nray
-
-  # ---- accessors
-  for ci in range(ncam):
-    W, H = rs[ci]
-    npx = npxs[ci]
-    out = wp.zeros((nworld, H, W), dtype=float)
-    scale = 3.0
-    mjw.get_depth(rc, ci, scale, out)
-    want = np.clip(rc.depth_data.numpy()[:, offs[ci] : offs[ci + 1]] / np.float32(scale), 0.0, 1.0).reshape(nworld, H, W)
-    c.close(f"get_depth:cam{ci}", out.numpy(), want, 1e-6, vkey="get_depth")
-    so = wp.zeros((nworld, H, W), dtype=wp.vec2i)
-    mjw.get_segmentation(rc, ci, so)
-    c.equal(f"get_segmentation:cam{ci}", so.numpy().reshape(nworld, npx, 2), seg[:, offs[ci] : offs[ci + 1]].reshape(nworld, npx, 2), vkey="get_segmentation")
+  c.nchecked += ca.nchecked
+  seen = set()
+  for x in ca.violations:
+    if x["vkey"] not in seen:
+      seen.add(x["vkey"])
+      c.fail(x["vkey"], x["what"])
   nontrivial = hits > 0
-  info = dict(pixels=nworld * nray, hits=hits, miss=miss, boundary=nb, types=sorted(types_seen))
-  return c.result(nontrivial=nontrivial, key=util.sha(scn), info=info, counts=dict(pixels_compared=nworld * nray, boundary_pixels=nb))
+  nframes = 1 + len(hist)
+  info = dict(pixels=nframes * nworld * nray, hits=hits, miss=miss, boundary=nb, types=sorted(types_seen))
+  counts = dict(pixels_compared=nframes * nworld * nray, boundary_pixels=nb, depth_decided_by_mj_ray=nref)
+  if hist:
+    info.update(frames=nframes, vacated=vacated)
+    counts.update(history_frames=nframes, pixels_vacated_between_frames=vacated)
+  return c.result(nontrivial=nontrivial, key=key, info=info, counts=counts)
